@@ -315,7 +315,7 @@ def assert_objects(ctx):
             except NotImplementedError:
                 core.observe("specifications that decline object generation (complement/quotient rules)")
                 return
-            truth = [w for w in R.words(ctx.table, n) if all(w.count("a") == v for v in key)]
+            truth = e2e.truth_objects(ctx, n, key)
             if len(set(objs)) != len(objs):
                 raise Bad("size %d %r: an object is generated twice: %r" % (n, params, sorted(objs)))
             if sorted(map(str, objs)) != sorted(truth):
